@@ -640,6 +640,9 @@ pub fn run(ctx: &Ctx) -> anyhow::Result<Report> {
 		if let Ok(b) = std::fs::read(p) { through(&mut run, "corpus", &p.display().to_string(), &b, None); }
 	}
 	r.count_n("corpus_files", take as u64);
+	// spread the 65535-byte methods evenly over the shards
+	let mut sh = Rng::new(ctx.seed ^ 0xC02);
+	sh.shuffle(&mut r.cases);
 	Ok(r)
 }
 
